@@ -104,6 +104,23 @@ IsArith(n) == n \in {"arith.constant", "arith.addi", "arith.subi", "arith.muli",
   "arith.shrsi", "arith.minsi", "arith.maxsi", "arith.minui", "arith.maxui", "arith.cmpi", "arith.select", "arith.extui", "arith.extsi",
   "arith.trunci", "arith.index_cast", "arith.index_castui", "arith.addui_extended", "arith.mului_extended", "arith.mulsi_extended"}
 
+\* ---------------------------------------------------------------- affine.apply: an affine expression tree over index (64-bit) operands
+\* e = [kind |-> "const" | "dim" | "sym" | "add" | "mul" | "mod" | "floordiv" | "ceildiv", v (limbs / position), l, r (sub-trees)]
+\* mod / floordiv / ceildiv are the floor-based operations of the affine dialect and need a positive right-hand side
+RECURSIVE AffEval(_, _, _)
+AffEval(e, dims, syms) ==      \* <<defined?, value>>
+  CASE e.kind = "const" -> <<TRUE, e.v>>
+    [] e.kind = "dim" -> <<TRUE, dims[e.v]>>
+    [] e.kind = "sym" -> <<TRUE, syms[e.v]>>
+    [] OTHER ->
+       LET a == AffEval(e.l, dims, syms)  b == AffEval(e.r, dims, syms) IN
+       IF ~a[1] \/ ~b[1] THEN <<FALSE, <<>>>>
+       ELSE CASE e.kind = "add" -> <<TRUE, Add(a[2], b[2], 64)>>
+              [] e.kind = "mul" -> <<TRUE, Mul(a[2], b[2], 64)>>
+              [] OTHER -> IF IsZero(b[2]) \/ SignBit(b[2], 64) = 1 THEN <<FALSE, <<>>>>
+                          ELSE CASE e.kind = "floordiv" -> <<TRUE, FloorDivS(a[2], b[2], 64)>>
+                                 [] e.kind = "ceildiv" -> <<TRUE, CeilDivS(a[2], b[2], 64)>>
+                                 [] e.kind = "mod" -> <<TRUE, Sub(a[2], Mul(b[2], FloorDivS(a[2], b[2], 64), 64), 64)>>
 DivLike == {"arith.divui", "arith.remui", "arith.ceildivui", "arith.divsi", "arith.remsi", "arith.floordivsi", "arith.ceildivsi"}
 \* ---------------------------------------------------------------- machine
 NewFrame(prog, f, argvals) ==
@@ -147,6 +164,10 @@ Step(prog, m) ==
        IF ~res[1] THEN Halt(m1, "ub")
        ELSE SetTop(IF \E k \in DOMAIN res[2] : IsPoison(res[2][k]) THEN [m1 EXCEPT !.pz = 1] ELSE m1,      \* pz: poison was created in this run
                    [fr EXCEPT !.env = Put(fr.env, o.r, res[2]), !.pc = fr.pc + 1])
+  ELSE IF n = "affine.apply" THEN
+       IF \E i \in DOMAIN x : IsPoison(x[i]) THEN Halt(m1, "ub")
+       ELSE LET res == AffEval(o.k, SubSeq(x, 1, o.p), SubSeq(x, o.p + 1, Len(x))) IN
+            IF ~res[1] THEN Halt(m1, "ub") ELSE SetTop(m1, [fr EXCEPT !.env = Put(fr.env, o.r, <<res[2]>>), !.pc = fr.pc + 1])
   ELSE IF IsLLVM(n) /\ (\E i \in DOMAIN x : IsPoison(x[i])) THEN Halt(m1, "ub")
   ELSE IF IsLLVM(n) THEN
        LET res == LLVMEval(o, x) IN
